@@ -25,13 +25,14 @@ import (
 type c15Case struct {
 	Family string `json:"family"`
 	Inner  Case   `json:"inner"`
+	Edit   int    `json:"edit,omitempty"` // > 0: the zoo process is edited in memory before serialising
 	rt     *rtState
 	failed bool
 	env    *Env
 }
 
 func (c *c15Case) Prepare() error {
-	c.rt = &rtState{}
+	c.rt = &rtState{edit: c.Edit}
 	rtMode = c.rt
 	err := c.Inner.Prepare()
 	rtMode = nil
@@ -120,6 +121,9 @@ func genC15(d *Draw) Case {
 		}
 		if _, ok := inner.(*ProcCase); ok && d.Bool() {
 			hd.Zoo = zooProcess(d)
+			if d.Bool() {
+				return &c15Case{Family: fam, Inner: inner, Edit: 1 + d.N(1000)}
+			}
 		}
 	}
 	return &c15Case{Family: fam, Inner: inner}
@@ -151,7 +155,10 @@ func checkC15(cc Case, r *simrt.Result) *Outcome {
 	for k, v := range io.Probes {
 		o.Probes[c.Family+":"+k] = v
 	}
-	o.Sample = map[string]any{"family": c.Family, "scenario": io.Sample}
+	if c.rt.edited > 0 {
+		o.Probes["model-edited-in-memory-before-serialising"] = 1
+	}
+	o.Sample = map[string]any{"family": c.Family, "scenario": io.Sample, "fields-edited-in-memory": c.rt.edited}
 	return o
 }
 
